@@ -123,13 +123,15 @@ func isAdoptionEdit(pre, post map[string]any, uid string) bool {
 	if !vs.JSONEqual(a, b) {
 		return false
 	}
-	// references of others must survive
+	// references of others must survive; ours is added (or promoted from a plain reference)
 	preRefs, _ := pre["metadata"].(map[string]any)["ownerReferences"].([]any)
 	postRefs, _ := post["metadata"].(map[string]any)["ownerReferences"].([]any)
-	if len(postRefs) != len(preRefs)+1 {
-		return false
-	}
+	others := 0
 	for _, pr := range preRefs {
+		if prm, _ := pr.(map[string]any); prm["uid"] == uid {
+			continue
+		}
+		others++
 		found := false
 		for _, qr := range postRefs {
 			if vs.JSONEqual(pr, qr) {
@@ -140,7 +142,7 @@ func isAdoptionEdit(pre, post map[string]any, uid string) bool {
 			return false
 		}
 	}
-	return true
+	return len(postRefs) == others+1
 }
 
 // selectorMatches evaluates the parent's child selector independently.
